@@ -11,7 +11,8 @@ ALL_DEV = ["R4"]
 
 
 def vectors(s, fixed):
-    env = {"VEC_VERSION": os.path.join(s, "vv.ndjson"), "VEC_CLIENT": os.path.join(s, "vc.ndjson"), "VEC_SIZE": os.path.join(s, "vs.ndjson")}
+    env = {"VEC_VERSION": os.path.join(s, "vv.ndjson"), "VEC_CLIENT": os.path.join(s, "vc.ndjson"), "VEC_SIZE": os.path.join(s, "vs.ndjson"),
+           "VEC_DIRFIT": os.path.join(s, "vd.ndjson")}
     cfg = "CONSTANTS Fixed = {%s}\n" % ", ".join('"%s"' % f for f in fixed)
     r = vlib.run_tlc(s, "MC_Version", cfg, workers=1, env=env, name="vectors", timeout=600)
     for f in env.values():
@@ -49,10 +50,13 @@ def run(prop, tier, seed, modes, rule, level_text):
         # the ideal tables must pass their own ASSUMEs, and so must the ones used for generation
         vectors(s + "/ideal", ALL_DEV) if os.makedirs(s + "/ideal", exist_ok=True) is None else None
         env, r = vectors(s, fixed)
-        key = {"version": "VEC_VERSION", "client": "VEC_CLIENT", "size": "VEC_SIZE"}
+        key = {"version": "VEC_VERSION", "client": "VEC_CLIENT", "size": "VEC_SIZE", "dirfit": "VEC_DIRFIT"}
         totals = {}
         for m in modes:
             t = replay(s, m, env[key[m]])
+            if m == "dirfit":
+                # the sweep serves two properties; each reports its own findings
+                t["findings"] = [f[5:] for f in t["findings"] if f.startswith(prop + ": ")]
             totals[m] = t
             for f in t["findings"][:5]:
                 p = vlib.save_replay(prop, {"mode": m, "finding": f}, "vector")
